@@ -40,3 +40,16 @@ Proof. intros H. apply run_writes_fail; lia. Qed.
 (* without a fault, success means every byte was handed to the destination *)
 Theorem writes_complete ws : run_writes ws ok_dest 0 = Ok (total ws).
 Proof. rewrite run_writes_ok. reflexivity. Qed.
+
+(* whatever the destination (one that would fail only beyond the end of the document included): a successful return means
+   the complete document was handed over *)
+Lemma run_writes_ok_any ws d : forall n m, run_writes ws d n = Ok m -> m = n + total ws.
+Proof.
+  induction ws as [|w r IH]; intros n m H; cbn [run_writes] in H; unfold total in *; cbn [concat].
+  - inversion H. cbn. lia.
+  - rewrite app_length. destruct d as [|k].
+    + apply IH in H. lia.
+    + destruct (Nat.leb (n + length w) k); [apply IH in H; lia | discriminate].
+Qed.
+Theorem writes_ok_complete ws d m : run_writes ws d 0 = Ok m -> m = total ws.
+Proof. intros H. apply run_writes_ok_any in H. exact H. Qed.
